@@ -193,6 +193,9 @@ func buildRegistry() []*entry {
 	// ---- form
 	add(formEntry())
 
+	add(sharedFieldEntry())
+	add(sharedInfoEntry())
+
 	// ---- disco
 	add(refl[disco.InfoQuery]("disco.InfoQuery"))
 	add(refl[disco.ItemsQuery]("disco.ItemsQuery"))
